@@ -24,6 +24,8 @@ pub fn observe(calls: &[Vec<u8>]) -> (u64, u8) {
     let mut p = NetflowParser::default();
     let mut acc: Vec<u64> = vec![];
     let mut flags = 0u8;
+    // does the latest definition of (protocol, id) seen in the results contain a field the library types Unknown?
+    let mut latest_unknown: std::collections::HashMap<(u8, u16), bool> = Default::default();
     for c in calls {
         let res = p.parse_bytes(c);
         for e in &res {
@@ -35,13 +37,24 @@ pub fn observe(calls: &[Vec<u8>]) -> (u64, u8) {
                         match &s.body {
                             v9::FlowSetBody::Template(t) => {
                                 for t in &t.templates {
-                                    if t.fields.iter().any(|f| FieldDataType::from(f.field_type) == FieldDataType::Unknown) {
+                                    let u = t.fields.iter().any(|f| FieldDataType::from(f.field_type) == FieldDataType::Unknown);
+                                    latest_unknown.insert((9, t.template_id), u);
+                                    if u {
                                         flags |= 1;
                                     }
                                 }
                             }
+                            v9::FlowSetBody::OptionsTemplate(t) => {
+                                for t in &t.templates {
+                                    latest_unknown.insert((9, t.template_id), false);
+                                }
+                            }
                             v9::FlowSetBody::Data(d) => {
                                 if d.fields.iter().any(|r| r.values().any(|(ft, _)| FieldDataType::from(*ft) == FieldDataType::Unknown)) {
+                                    flags |= 2;
+                                }
+                                // records reported for an id whose latest definition holds an unknown field
+                                if !d.fields.is_empty() && latest_unknown.get(&(9, s.header.flowset_id)).cloned().unwrap_or(false) {
                                     flags |= 2;
                                 }
                             }
@@ -55,21 +68,31 @@ pub fn observe(calls: &[Vec<u8>]) -> (u64, u8) {
                         let unk = |f: &ipfix::TemplateField| f.enterprise_number.is_none() && FieldDataType::from(f.field_type) == FieldDataType::Unknown;
                         match &s.body {
                             ipfix::FlowSetBody::Template(t) => {
-                                if t.fields.iter().any(unk) {
+                                let u = t.fields.iter().any(unk);
+                                latest_unknown.insert((10, t.template_id), u);
+                                if u {
                                     flags |= 1;
                                 }
                             }
                             ipfix::FlowSetBody::OptionsTemplate(t) => {
-                                if t.fields.iter().any(unk) {
+                                let u = t.fields.iter().any(unk);
+                                latest_unknown.insert((10, t.template_id), u);
+                                if u {
                                     flags |= 1;
                                 }
                             }
                             ipfix::FlowSetBody::Data(d) => {
+                                if !d.fields.is_empty() && latest_unknown.get(&(10, s.header.header_id)).cloned().unwrap_or(false) {
+                                    flags |= 2;
+                                }
                                 if d.fields.iter().any(|r| r.values().any(|(ft, _)| FieldDataType::from(*ft) == FieldDataType::Unknown && !matches!(ft, netflow_parser::variable_versions::ipfix_lookup::IPFixField::Enterprise))) {
                                     flags |= 2;
                                 }
                             }
                             ipfix::FlowSetBody::OptionsData(d) => {
+                                if !d.fields.is_empty() && latest_unknown.get(&(10, s.header.header_id)).cloned().unwrap_or(false) {
+                                    flags |= 2;
+                                }
                                 if d.fields.iter().any(|r| r.values().any(|(ft, _)| FieldDataType::from(*ft) == FieldDataType::Unknown && !matches!(ft, netflow_parser::variable_versions::ipfix_lookup::IPFixField::Enterprise))) {
                                     flags |= 2;
                                 }
@@ -188,8 +211,9 @@ pub fn run(tier: &str) -> i32 {
                     if f2 & 2 != 0 {
                         add("feature-off-reports-record-with-unknown-field", "the --no-default-features build reports a decoded data record that contains a field the library does not know".into());
                     }
-                    if f1 & 2 == 0 {
-                        add("feature-on-does-not-decode-unknown-field", "control: the default build does not report the record with the unknown field either".into());
+                    if f1 & 2 != 0 {
+                        // vacuity guard: the default build does decode such records, so the clause is exercised
+                        *tags.entry("unknown-field-record-decoded-by-default-build").or_insert(0) += 1;
                     }
                 }
             }
@@ -211,9 +235,6 @@ pub fn run(tier: &str) -> i32 {
                     if f1 & 1 != 0 && f2 & 2 != 0 {
                         is.push(issue("feature-off-reports-record-with-unknown-field", ""));
                     }
-                    if f1 & 1 != 0 && f1 & 2 == 0 {
-                        is.push(issue("feature-on-does-not-decode-unknown-field", ""));
-                    }
                     Eval { key: d1, transitions: 0, issues: is, tags: vec![] }
                 },
                 move |i| (gg.gen)(i).map(|c| super::stream::desc_calls(&c)).unwrap_or(json!("skipped")),
@@ -230,7 +251,7 @@ pub fn run(tier: &str) -> i32 {
         bounds: json!({"spaces": "all generators of C04 and C05 at this tier", "builds": ["default features", "--no-default-features"]}),
         assumptions: vec!["enterprise-specific IPFIX fields are decoded as opaque bytes by an explicit branch in both builds and are not counted as unknown".into()],
         trusted_base: vec!["c17::observe".into()],
-        required_tags: if build_ok { vec!["known-only-stream-compared", "stream-with-unknown-field"] } else { vec![] },
+        required_tags: if build_ok { vec!["known-only-stream-compared", "stream-with-unknown-field", "unknown-field-record-decoded-by-default-build"] } else { vec![] },
         extra: [("feature_off_build_ok".to_string(), json!(build_ok))].into_iter().collect(),
     };
     finish(rep, &spaces, results, &known, t0)
